@@ -1,10 +1,5 @@
 package main
 
-import (
-	"fmt"
-	"sort"
-	"strings"
-)
 
 func busGuards(R *BusRoles) []guardSpec {
 	g := []guardSpec{
@@ -24,39 +19,3 @@ func busGuards(R *BusRoles) []guardSpec {
 // callbackExceptions: callbacks that may run while the named lock class is held, each
 // with the reason (DESIGN.md C03.R4). Key: callee + "|" + held classes.
 var callbackExceptions = map[string]string{}
-
-func devLockDump(c *Ctx) {
-	p, R := busRoles(c, "DEV")
-	if R == nil {
-		return
-	}
-	res := runLocks(p, busGuards(R), map[string]bool{PkgBus: true, PkgState: true})
-	fmt.Printf("roots=%d closures=%d states=%d lockops=%d callbacks=%d\n", res.Roots, res.Closures, res.States, res.LockOps, res.CallbacksSeen)
-	var ks []string
-	for k := range res.Accesses {
-		ks = append(ks, k)
-	}
-	sort.Strings(ks)
-	for _, k := range ks {
-		a := res.Accesses[k]
-		fmt.Printf("ACCESS ok=%v %s @%s :: %s\n", a.OK, k, a.Pos, a.Detail)
-	}
-	ks = nil
-	for k := range res.Callbacks {
-		ks = append(ks, k)
-	}
-	sort.Strings(ks)
-	for _, k := range ks {
-		fmt.Printf("CALLBACK %s @%s\n", k, res.Callbacks[k].Pos)
-	}
-	for k, v := range res.Edges {
-		fmt.Printf("EDGE %s @%s\n", k, v)
-	}
-	for _, f := range res.Misc {
-		fmt.Printf("MISC %s: %s\n    %s\n", f.Construct, f.Msg, strings.Join(f.Trace, "\n    "))
-	}
-}
-
-func init() {
-	register("DEVLOCK", &PropDef{Explain: "dev", Run: devLockDump})
-}
